@@ -1,6 +1,7 @@
 package main
 
 import (
+	cryptodsa "github.com/go-i2p/crypto/dsa"
 	"reflect"
 	"bytes"
 	"crypto/ed25519"
@@ -94,6 +95,45 @@ func runC06(c *Ctx) {
 					// a router without addresses is inadmissible by the library's own RouterInfo.Validate
 					// (C14), so the constructor refusing it produces nothing that C06 speaks about
 					c.Check("constructor_accepts_admissible", na > 255 || len(addrs) == 0, "NewRouterInfo", nil, "", fmt.Sprintf("NewRouterInfo failed: %v", nerr))
+				}
+			}
+		}
+		// ---- LeaseSet under a legacy DSA identity: NULL-certificate destination (ElGamal + DSA-SHA1,
+		// the default sizes apply: 128-byte signing key, 40-byte signature) and a KEY certificate
+		// declaring DSA; signed by the library with a DSA key, checked independently with crypto/dsa
+		if i < 8 {
+			dk := genDSA(r)
+			id := genIdentTypes(r, 0, 0, i%2 == 0)
+			id.Spk = cp(dk.pub)
+			d, _, derr := destination.ReadDestination(id.Encode())
+			dpriv, perr := cryptodsa.NewDSAPrivateKey(dk.x)
+			if derr == nil && perr == nil {
+				encB := r.Bytes(256)
+				encB[0] &= 0x7f
+				encB[255] |= 2
+				var ek elg.ElgPublicKey
+				copy(ek[:], encB)
+				spk, _ := d.SigningPublicKey()
+				var leases []lease.Lease
+				for j := 0; j < []int{0, 1, 2, 16}[i%4]; j++ {
+					var l lease.Lease
+					copy(l[:], genLease(r))
+					leases = append(leases, l)
+				}
+				ls, nerr := lease_set.NewLeaseSet(d, ek, spk, leases, &dpriv)
+				if nerr != nil {
+					c.Check("constructor_accepts_admissible", false, "NewLeaseSet (DSA identity)", nil, "", fmt.Sprintf("NewLeaseSet failed: %v", nerr))
+				} else {
+					b, berr := ls.Bytes()
+					okv := ls.Verify() == nil && berr == nil
+					c.Check("signed_verifies_before_wire", okv, "NewLeaseSet (DSA identity)", [][]byte{b}, "", "Verify() failed on constructor output")
+					if berr == nil {
+						p2, perr2 := lease_set.ReadLeaseSet(b)
+						okw := perr2 == nil && p2.Verify() == nil
+						indep := len(b) > 40 && dsaVerify(dk.pub, b[:len(b)-40], b[len(b)-40:])
+						c.Check("signed_verifies_after_wire", okw && indep, "NewLeaseSet (DSA identity)", [][]byte{b}, "",
+							fmt.Sprintf("NULL certificate=%v: parse err=%v, independent DSA check over the serialisation=%v", i%2 == 0, perr2, indep))
+					}
 				}
 			}
 		}
